@@ -487,7 +487,8 @@ fn map_main(args: &[String]) {
   std::panic::set_hook(Box::new(|_| {}));   // panics of the code under test are caught and reported as violations
   if only.is_none() || args.iter().any(|a| a == "--twins") {
     ran += 1;
-    if let Err(f) = mapmodel::twins() { println!("{{\"violation\":true,\"engine\":\"map\",\"property\":\"{}\",\"obligation\":\"{}\",\"rerun\":\"map-case --twins --index 0 --len 0\",\"what\":{:?},\"case\":\"two block-local key types named K\"}}", f.prop, f.ob, f.what); found += 1; }
+    let r = match std::panic::catch_unwind(std::panic::AssertUnwindSafe(mapmodel::twins)) { Ok(r) => r, Err(e) => Err(mapmodel::Fail { prop: "C14", ob: "C14.bounded.operation_does_not_panic", what: format!("the twin-types scenario panicked: {}", panic_text(&e)) }) };
+    if let Err(f) = r { println!("{{\"violation\":true,\"engine\":\"map\",\"property\":\"{}\",\"obligation\":\"{}\",\"rerun\":\"map-case --twins --index 0 --len 0\",\"what\":{:?},\"case\":\"two block-local key types named K\"}}", f.prop, f.ob, f.what); found += 1; }
   }
   for i in range {
     let mut rng = mapmodel::Rng((0x9E3779B97F4A7C15u64 ^ (seed as u64).wrapping_mul(0xD1342543DE82EF95) ^ (i as u64).wrapping_mul(0xA24BAED4963EE407)) | 1);
@@ -495,7 +496,7 @@ fn map_main(args: &[String]) {
     // a panic of the real crate on an operation sequence of the public API is a failure of that sequence
     let r = match std::panic::catch_unwind(std::panic::AssertUnwindSafe(|| mapmodel::run(&ops))) {
       Ok(r) => r,
-      Err(e) => Err((ops.len(), mapmodel::Fail { prop: "C14", ob: "C14.bounded.operation_does_not_panic", what: format!("the sequence panicked: {}", panic_text(&e)) })),
+      Err(e) => Err((ops.len() - 1, mapmodel::Fail { prop: "C14", ob: "C14.bounded.operation_does_not_panic", what: format!("the sequence panicked: {}", panic_text(&e)) })),
     };
     if let Err((at, f)) = r {
       println!("{{\"violation\":true,\"engine\":\"map\",\"property\":\"{}\",\"obligation\":\"{}\",\"rerun\":{:?},\"what\":{:?},\"case\":{:?}}}", f.prop, f.ob, format!("map-case --seed {} --index {} --len {}", seed, i, len), f.what, format!("{:?}", &ops[..=at]));
